@@ -90,3 +90,15 @@ def wkey(p: Program, rule: str, ev, extra: str = "") -> str:
     via = ev[8] if len(ev) > 9 else ""
     frames = [f for f in via.split(">") if f and "Method." not in f]
     return f"{rule}|{'+'.join(ev[3])}|{fn}|{stmt}|via:{'>'.join(frames[-6:])}{extra}"
+
+
+def walk_own(fnode):
+    """ast.walk restricted to a function's own body (nested defs / lambdas excluded)."""
+    import ast
+    stack = list(ast.iter_child_nodes(fnode))
+    while stack:
+        n = stack.pop()
+        yield n
+        if isinstance(n, (ast.FunctionDef, ast.AsyncFunctionDef, ast.Lambda, ast.ClassDef)):
+            continue
+        stack.extend(ast.iter_child_nodes(n))
